@@ -198,7 +198,8 @@ class DtdMapper:
             restrictions = cls.build_restrictions(content.occur, **kwargs)
             cls.build_element(target, content.name, restrictions)
         elif content_type == DtdContentType.SEQ:
-            cls.build_content_tree(target, content, **kwargs)
+            params = cls.merge_occurs(content.occur, kwargs)
+            cls.build_content_tree(target, content, **params)
         elif content_type == DtdContentType.OR:
             params = cls.merge_occurs(content.occur, kwargs)
             if "choice" not in kwargs:
